@@ -376,6 +376,10 @@ def check_counts(ctx, case):
         try:
             others.append(('dict', formulas.formula(dict(items))))
             others.append(('seq', formulas.formula([(c, a) for a, c in reversed(items)])))
+            if not exotic:
+                import collections
+                others.append(('ordered-dict', formulas.formula(collections.OrderedDict(reversed(items)))))
+                others.append(('defaultdict', formulas.formula(collections.defaultdict(float, items[1:] + items[:1]))))
             if len(items) >= 2:
                 j = rng.randint(1, len(items) - 1)
                 others.append(('seq-grouped', formulas.formula([(1, [(c, a) for a, c in items[j:]])] +
